@@ -231,6 +231,23 @@ def check_C06(tier):
                    extra_cov={'exhaustive': True}, min_eval=10000)
 
 
+def check_C09(tier):
+    t0 = time.time()
+    b = compile_bin('proto', ['checks/proto.cc'], 'fast', libs=['-lrapidcheck', '-rdynamic'])
+    maxlen, rc_cases = ('5', '40000') if tier == 'thorough' else ('4', '5000')
+    reps = run_native(b, ['--seed', str(seed()), '--maxlen', maxlen, '--rc_cases', rc_cases, '--known', known_tsv('C09')], NCPU, 'C09')
+    agg = Agg('C09')
+    agg.add(reps)
+    rule = ('(a) ALL call sequences of length 1..%s over an alphabet of 24 abstract public calls (setters with valid/invalid arguments, by-label known/unknown, add_operation valid/null, '
+            'initialize, shoot, reset, destroy+recreate) enumerated exhaustively; (b) rapidcheck-generated sequences up to length ~60 with whole-sequence shrinking; oracle = explicit '
+            'model (which calls must raise, every getter after every step, reset == fresh, events == fresh instance on the same tape); '
+            'non-trivial & distinct = distinct sequences containing at least one refused call and one successful initialize' % maxlen)
+    return verdict(agg, tier, t0, rule, ['gsl_integration_qng is interposed by a cheap deterministic stub in this binary (only the protocol is under test; acceptance itself is C06)',
+                                         'the expected outcome of initialize() is the outcome on a fresh instance configured with the same fields',
+                                         'the decay version may be filled in by an initialize() attempt (not asserted)'],
+                   extra_cov={'exhaustive': True, 'exhaustive_note': 'part (a) is exhaustive up to the stated length; part (b) is sampling'}, min_eval=10000)
+
+
 def check_C08(tier):
     """sanitizer builds (ASan+UBSan+_GLIBCXX_ASSERTIONS) of the generation drivers + structure-aware libFuzzer target"""
     t0 = time.time()
